@@ -30,7 +30,7 @@ TINY = [None, 1, '1', A.Color.RED]
 
 TYPES = {'Foo': A.Foo, 'FooBar': A.FooBar, 'Foo_': A.Foo_, 'BFoo': B.Foo, 'JFoo': A.JFoo, 'P2': A.P2,
          'Leaf': A.Leaf, 'BLeaf': B.Leaf, 'NoCacheT': A.NoCacheT, 'PFoo': A.PFoo,
-         'Modèle': getattr(A, 'Modèle'), 'Эксперимент': getattr(A, 'Эксперимент'), 'DFoo': A.DFoo}
+         'Modèle': getattr(A, 'Modèle'), 'Эксперимент': getattr(A, 'Эксперимент'), 'DFoo': A.DFoo, 'SubFoo': A.SubFoo}
 OUTER = ('Foo', 'BFoo', 'FooBar', 'Foo_', 'JFoo', 'P2', 'PFoo', 'Modèle', 'Эксперимент')
 
 
@@ -80,6 +80,13 @@ def space(tier: str):
         for y in (None, ('s', None), ('s', 100), ('s', 0), ('s', 'a')):
             out.append(('DFoo', ('s', x), y))
     out.append(('Foo', ('t', 'DFoo', ('s', 1)), None))
+    # a derived task type that adds a parameter (third element = the added parameter r): tasks differing
+    # only in r, or only in an inherited parameter
+    for x in SMALL[:4]:
+        for y in SMALL:
+            out.append(('SubFoo', ('s', x), ('s', y)))
+    out.append(('SubFoo', ('s', 1), ('l', (('t', 'Leaf', ('s', 1)),))))
+    out.append(('SubFoo', ('s', 1), ('l', (('t', 'Leaf', ('s', 2)),))))
     # dict parameters whose keys are not in alphabetical order (top level, in a list, in a nested task)
     zd = ('d', (('zeta', ('s', 1)), ('alpha', ('s', 2)), ('mid', ('d', (('y', ('s', None)), ('b', ('s', 'a')))))))
     for tn in ('Foo', 'JFoo', 'PFoo'):
@@ -92,6 +99,10 @@ def space(tier: str):
 def make(item, spelling=0):
     tn, tp, tq = item
     kw = {'p': build(tp, types=TYPES, spelling=spelling)}
+    if tn == 'SubFoo':
+        A.Foo(p=0)       # the base type has been in use before the derived one
+        kw['r'] = build(tq, types=TYPES, spelling=spelling)
+        return TYPES[tn](**kw)
     if tq is not None:
         kw['q'] = build(tq, types=TYPES, spelling=spelling)
     return TYPES[tn](**kw)
@@ -103,6 +114,8 @@ def key_table(tier: str):
 
 def item_desc(item):
     tn, tp, tq = item
+    if tn == 'SubFoo':
+        return f"SubFoo(p={describe(tp)}, r={describe(tq)})"
     return f"{tn}(p={describe(tp)}" + (f", q={describe(tq)})" if tq is not None else ')')
 
 
@@ -251,10 +264,27 @@ def _sweep(rng):
     return lo, [A.Foo(p=i).cache_key for i in range(lo, hi)]
 
 
+def shared_object_pairs():
+    """The same parameter values built with ONE nested task object used several times, and with a
+    separate equal object per occurrence: the key depends on the values only."""
+    out = []
+    for mk_leaf in (lambda: A.Leaf(1), lambda: A.Leaf([A.Leaf('in')]), lambda: A.NoCacheT(p=1), lambda: B.Leaf(A.Color.RED)):
+        for shape in (lambda f: A.Foo(p=[f(), f()]), lambda f: A.Foo(p=f(), q=f()), lambda f: A.Foo(p={'a': f(), 'b': [f()]}, q=f()),
+                      lambda f: A.Foo(p=[A.Foo(p=f()), A.Foo(p=f())]), lambda f: A.JFoo(p=[f(), [f(), {'k': f()}]]), lambda f: A.Foo(p=[A.Foo(p=f(), q=1), f()])):
+            one = mk_leaf()
+            out.append((shape(lambda: one), shape(mk_leaf)))
+    return out
+
+
 def run(tier: str, seed: int) -> Result:
     silence_labtech()
     items = space(tier)
     viols = []
+    for shared, separate in shared_object_pairs():
+        if shared.cache_key != separate.cache_key or not (shared == separate):
+            viols.append(Violation('C07', 'nondeterministic:shared-nested-object',
+                                   f'{shared!r}: key {shared.cache_key} when one nested task object is used at every occurrence, {separate.cache_key} with a separate equal object per occurrence',
+                                   {'tier': tier, 'aspect': 'shared-nested-object'}, size=6))
     by_key: dict = {}
     evals = 0
     tmp = tempfile.mkdtemp(prefix='c07_')
